@@ -35,6 +35,13 @@ pub enum RowForm {
 pub struct RowProg {
     pub cells: Vec<Val>,
     pub form: RowForm,
+    /// refused offers: `(i, v)` = before cell `i` is written with `write_col` (after the last cell
+    /// when `i == cells.len()`), the shim first offers `v` for that column; `v` is chosen so that
+    /// the column cannot carry it (NULL for NOT NULL, a value of a foreign type, a surplus column).
+    /// The library has to refuse it with an error, and the shim then carries on with the row the
+    /// way a shim with a fallback value does.  Only honoured by the `write_col` forms.
+    #[serde(default)]
+    pub offers: Vec<(usize, Val)>,
 }
 
 #[derive(Clone, Debug, PartialEq, Serialize, Deserialize)]
@@ -200,6 +207,9 @@ pub struct ShimState {
     pub param_takes: VecDeque<Option<usize>>,
     /// per result program (in order): after running it, return this tagged error from the callback
     pub then_fail: VecDeque<Option<u32>>,
+    /// offers (see `RowProg::offers`) that the library accepted instead of refusing
+    pub offers_accepted: Vec<String>,
+    pub offers_refused: usize,
 }
 
 pub struct Shim {
@@ -236,6 +246,21 @@ impl Shim {
     }
     fn mismatch(&self, what: String) {
         self.st.borrow_mut().mismatches.push(what);
+    }
+    /// Offer the values scripted for column `i` of `row`; each must be refused (`InvalidData`),
+    /// after which the shim goes on with the row.  Any other error is returned like every error.
+    fn offer<W: io::Read + io::Write>(&self, cb: usize, at: Option<(usize, usize)>, row: &RowProg, i: usize, rw: &mut RowWriter<'_, W>) -> io::Result<()> {
+        for (_, v) in row.offers.iter().filter(|(k, _)| *k == i) {
+            let r = dispatch(v, &mut ColSink(rw));
+            // (not entered in `calls`: that log is about the calls that build the response)
+            let _ = cb;
+            match r {
+                Ok(()) => self.st.borrow_mut().offers_accepted.push(format!("{:?} offered for column {} of row {:?}", v, i, at)),
+                Err(e) if e.kind() == io::ErrorKind::InvalidData => self.st.borrow_mut().offers_refused += 1,
+                Err(e) => return Err(e),
+            }
+        }
+        Ok(())
     }
 }
 
@@ -308,15 +333,18 @@ impl Shim {
                                 }
                                 RowForm::Mixed(k) => {
                                     let k = k.min(row.cells.len());
-                                    for cell in &row.cells[..k] {
+                                    for (ci, cell) in row.cells[..k].iter().enumerate() {
+                                        self.offer(cb, at, row, ci, &mut rw)?;
                                         logged!(self, cb, "write_col", at, dispatch(cell, &mut ColSink(&mut rw)))?;
                                     }
                                     logged!(self, cb, "write_row", at, rw.write_row(row.cells[k..].to_vec()))?;
                                 }
                                 RowForm::Cols | RowForm::ColsOpen => {
-                                    for cell in &row.cells {
+                                    for (ci, cell) in row.cells.iter().enumerate() {
+                                        self.offer(cb, at, row, ci, &mut rw)?;
                                         logged!(self, cb, "write_col", at, dispatch(cell, &mut ColSink(&mut rw)))?;
                                     }
+                                    self.offer(cb, at, row, row.cells.len(), &mut rw)?;
                                     if row.form == RowForm::Cols {
                                         logged!(self, cb, "end_row", at, rw.end_row())?;
                                     }
